@@ -4,15 +4,15 @@
 # meta.json "also_checks") against that clone, expects exit 1, reverts.  Writes seeded/RESULTS.txt.
 # Evidence and replays of these runs go to the scratch directory, never to /verif/evidence.
 tier=${1:-quick}; shift
-cd /verif
+V=$(cd "$(dirname "$0")/.." && pwd); cd $V   # /verif, or a snapshot copy of it
 ids=${@:-$(ls seeded | grep -E '^C[0-9]+_[0-9]+$')}
 out=seeded/RESULTS.txt; [ $# -eq 0 ] && : > $out
 S=$(mktemp -d /tmp/seedcheck.XXXXXX)
 git clone -q /repo $S/repo || exit 2
 export VERIF_REPO=$S/repo VERIF_OUT=$S/out
-[ $# -eq 0 ] && echo "# repo HEAD $(git -C /repo rev-parse --short HEAD), verif $(git -C /verif rev-parse --short HEAD), tier $tier" >> $out
+[ $# -eq 0 ] && echo "# repo HEAD $(git -C /repo rev-parse --short HEAD), verif $(git -C $V rev-parse --short HEAD), tier $tier" >> $out
 for id in $ids; do
-  d=/verif/seeded/$id; pid=${id%_*}
+  d=$V/seeded/$id; pid=${id%_*}
   if ! (git -C $S/repo apply --3way $d/patch.diff 2>/dev/null || git -C $S/repo apply $d/patch.diff 2>/dev/null); then
     echo "$id $pid PATCH-DOES-NOT-APPLY" | tee -a $out; git -C $S/repo reset -q --hard HEAD; continue
   fi
